@@ -2,6 +2,7 @@ import DuneVerif.Proofs.C08Ev2Scaled
 import DuneVerif.Proofs.C08Ev3Top
 import DuneVerif.Proofs.C08Lapack
 import DuneVerif.Proofs.C08Outputs
+import DuneVerif.Proofs.C08Tie
 /-!
 # C08 — property theorems: the closed-form eigenvalue routines in exact arithmetic
 
@@ -518,5 +519,93 @@ theorem nonsym_dynamic_vectors_right {R : Type} [CommRing R] (n : Nat) (A : Nat 
       apply sumTo_congr
       intro k hk
       rw [hrow k hk]
+
+/-! ## Round four: the control tables and LAPACK call sites regenerated from the current source -/
+
+/-- **ev3_control_translated.** The table-driven definitions — `eig0` with the translated rows, cross-product pairs,
+lengths, running-maximum updates and result selection; the eigenvector assembly with the translated indices of both
+branches of `if (r >= 0)`; the whole 3x3 eigenvector routine built from them — coincide, for every scalar type and all
+arguments, with the hand-written control flow the other theorems speak about.  The line-protocol driver runs the
+table-driven ones. -/
+theorem ev3_control_translated {K : Type} [Add K] [Sub K] [Mul K] [Div K] [Neg K] [NatCast K] [LT K] [LE K]
+    [DecidableLT K] [DecidableLE K] (sqrt acos cos : K → K) (pi eps : K) :
+    (∀ (A : M3 K) (ev : K), eig0T sqrt A ev = eig0 sqrt A ev) ∧
+    (∀ (S : M3 K) (l : K × K × K) (r : K), trigVectorsT sqrt S l r = trigVectors sqrt S l r) ∧
+    (∀ A : M3 K, eigenValuesVectors3dT sqrt acos cos pi eps A = eigenValuesVectors3d sqrt acos cos pi eps A) :=
+  ⟨eig0T_eq sqrt, trigVectorsT_eq sqrt, eigenValuesVectors3dT_eq sqrt acos cos pi eps⟩
+
+/-- the tables are not degenerate: on the integers (identity as "square root") the table-driven `eig0` of
+`diag(2,1,1) - 2 I` picks the third cross product, the only non-zero one -/
+example : (eig0T (fun x : Int => x) ⟨2, 0, 0, 0, 1, 0, 0, 0, 1⟩ 2).x = 1 ∧ (eig0T (fun x : Int => x) ⟨2, 0, 0, 0, 1, 0, 0, 0, 1⟩ 2).y = 0 :=
+  ⟨rfl, rfl⟩
+
+/-- **ev3_vectors_translated.** `ev3_vectors` for the routine assembled from the translated tables: for every real
+symmetric 3x3 matrix not treated as diagonal, what the current source's selection and assembly logic returns are unit,
+mutually orthogonal vectors with `(A - λᵢ I) vᵢ = 0`. -/
+theorem ev3_vectors_translated (eps : ℝ) (he : 0 ≤ eps) (A : M3 ℝ) (hs : Sym3 A)
+    (hb : diagBranchVec eps (sdiv3 A (maxAbsElement A)) = false) :
+    EigTriple A (eigenValuesVectors3dT Real.sqrt Real.arccos Real.cos Real.pi eps A).1.1
+      (eigenValuesVectors3dT Real.sqrt Real.arccos Real.cos Real.pi eps A).1.2.1
+      (eigenValuesVectors3dT Real.sqrt Real.arccos Real.cos Real.pi eps A).1.2.2
+      (eigenValuesVectors3dT Real.sqrt Real.arccos Real.cos Real.pi eps A).2.1
+      (eigenValuesVectors3dT Real.sqrt Real.arccos Real.cos Real.pi eps A).2.2.1
+      (eigenValuesVectors3dT Real.sqrt Real.arccos Real.cos Real.pi eps A).2.2.2 := by
+  rw [eigenValuesVectors3dT_eq]
+  exact ev3_vectors eps he A hs hb
+
+/-- (hypotheses satisfiable: the two examples after `ev3_vectors`) -/
+example : Gen.ev3_asmPos = (2, 2, 2, 1, 1, 0, 1, 2) ∧ Gen.ev3_asmNeg = (0, 0, 0, 1, 1, 2, 0, 1) := ⟨rfl, rfl⟩
+
+/-- **ev3_diag_network_translated.** The diagonal special case of the source starts from the diagonal entries and the
+coordinate vectors and runs the compare-and-swap network (0,1), (1,2), (0,1), each step swapping the compared values
+*and* the vectors of the same indices — the network of the hand-written model (`ev3_vectors_diag`). -/
+theorem ev3_diag_network_translated :
+    Gen.ev3_diagInit = [(0, 0), (1, 1), (2, 2)] ∧ Gen.ev3_diagVecs = [[1, 0, 0], [0, 1, 0], [0, 0, 1]] ∧
+    Gen.ev3_diagSwaps = [(0, 1, 0, 1, 0, 1), (1, 2, 1, 2, 1, 2), (0, 1, 0, 1, 0, 1)] := ev3_diag_tables
+
+/-- the interpreted network sorts values and vectors jointly -/
+example : (diagVectorsT (⟨3, 0, 0, 0, 1, 0, 0, 0, 2⟩ : M3 Int)).1 = (1, 2, 3) ∧
+    (diagVectorsT (⟨3, 0, 0, 0, 1, 0, 0, 0, 2⟩ : M3 Int)).2.1.y = 1 ∧ (diagVectorsT (⟨3, 0, 0, 0, 1, 0, 0, 0, 2⟩ : M3 Int)).2.2.2.x = 1 :=
+  ⟨rfl, rfl, rfl⟩
+
+/-- **lapack_handover_translated.** With the orientation of the copy loops and `uplo` as they are in the source now,
+what ?syev / ?geev see and how the result is copied back are the maps of `lapack_handover_sym`,
+`lapack_handover_nonsym` and `lapack_handover_nonsym_dynamic`. -/
+theorem lapack_handover_translated {K : Type} (n : Nat) (A Z : Nat → Nat → K) :
+    lapackSeesSymT n A = lapackSeesSym n A ∧ lapackSeesNonSymFT n A = lapackSeesNonSymF n A ∧
+    lapackSeesNonSymDT n A = lapackSeesNonSymD n A ∧ copyBackSymT n Z = copyBack n Z :=
+  ⟨lapackSeesSymT_eq n A, lapackSeesNonSymFT_eq n A, lapackSeesNonSymDT_eq n A, copyBackSymT_eq n Z⟩
+
+example : lapackSeesNonSymDT 2 (fun i j => (10 * i + j : Nat)) 0 1 = 1 ∧
+    lapackSeesNonSymFT 2 (fun i j => (10 * i + j : Nat)) 0 1 = 10 := by decide
+
+/-- **lapack_sym_call.** ?syev's interface asks for `LWORK ≥ max(1, 3N-1)`, a work array of `LWORK` and a matrix array
+of `N²` entries: for *every* order the `lwork` of the source meets the bound, the arrays the source declares have these
+sizes, the job character is `'v'` exactly for the eigenvector job and `uplo` names a triangle. -/
+theorem lapack_sym_call (n : Nat) :
+    max 1 (3 * n - 1) ≤ max 1 (Gen.lapSym_lwork n) ∧ (1 ≤ n → max 1 (3 * n - 1) ≤ Gen.lapSym_lwork n) ∧
+    Gen.lapSym_lwork n ≤ Gen.lapSym_workSize n ∧ n * n ≤ Gen.lapSym_matSize n ∧
+    Gen.lapSym_jobz = ('n', 'v') ∧ (Gen.lapSym_uplo = 'u' ∨ Gen.lapSym_uplo = 'l') := lapack_sym_call_ok n
+
+example : Gen.lapSym_lwork 4 = 11 ∧ Gen.lapSym_workSize 8 = 23 := by decide
+
+/-- **lapack_nonsym_call.** ?geev's interface asks for `LWORK ≥ max(1, 3N)`, and `≥ 4N` when eigenvectors are wanted,
+`WR`/`WI` of `N`, `A` of `N²` and — with `JOBVR = 'V'` — `VR` of `N²` entries: both call sites (fixed size: eigenvalues
+only; dynamic: right eigenvectors exactly when the caller passes a list, never left ones), every order `n ≥ 1`. -/
+theorem lapack_nonsym_call (n : Nat) (hn : 1 ≤ n) (vec : Bool) :
+    (max 1 (3 * n) ≤ Gen.lapNsF_lwork n ∧ Gen.lapNsF_lwork n ≤ Gen.lapNsF_workSize n ∧
+      n ≤ (Gen.lapNsF_wSize n).1 ∧ n ≤ (Gen.lapNsF_wSize n).2 ∧ Gen.lapNsF_jobs = ('n', 'n')) ∧
+    ((if vec then 4 * n else max 1 (3 * n)) ≤ Gen.lapNsD_lwork n vec ∧ Gen.lapNsD_lwork n vec ≤ Gen.lapNsD_workSize n vec ∧
+      n * n ≤ Gen.lapNsD_matSize n vec ∧ n ≤ (Gen.lapNsD_wSize n vec).1 ∧ n ≤ (Gen.lapNsD_wSize n vec).2 ∧
+      (vec = true → n * n ≤ Gen.lapNsD_vrSize n vec) ∧
+      Gen.lapNsD_jobvl = ('n', 'n') ∧ Gen.lapNsD_jobvr = ('v', 'n')) := lapack_nonsym_call_ok n hn vec
+
+example : Gen.lapNsD_lwork 5 true = 20 ∧ Gen.lapNsD_lwork 5 false = 15 ∧ Gen.lapNsD_vrSize 5 true = 25 := by decide
+
+/-- **entry_points_request_vectors.** `FMatrixHelp::eigenValuesVectors` and `eigenValuesVectorsLapack` instantiate the
+implementation with the eigenvector job and pass the caller's matrix (so `jobz = 'v'` by `lapack_sym_call`). -/
+theorem entry_points_request_vectors : Gen.entryJobs.2.1 = true ∧ Gen.entryJobs.2.2.2 = true := entry_jobs_ok
+
+example : Gen.entryJobs.1 = false := rfl
 
 end DV.C08
